@@ -3,6 +3,9 @@
 // result, the iteration order (getFirstBank/getNextBank/getBankId), the capacity, the number of
 // heap allocations the call made, lookups of the probe keys and instrument read-backs (indices 0, 1, 127 of every
 // probe bank that is found, or the indices named by "rbi" of the init command).
+// Instruments are written from and read back into the complete field tuple (spec/BankMap.tla InsFields, 36 numbers:
+// note_offset, midi_velocity_offset, percussion_key_number, inst_flags, fbalg, lfosens, 4 x 7 operator bytes, delay_on_ms,
+// delay_off_ms); the harness compares nothing - a read-back record is [bank key, index, [36 fields], version].
 // Instrument indices are passed as unsigned: negative numbers in the script stand for 2^32 - n (-1 = UINT_MAX).
 #include "vh.hpp"
 #include "wopn/wopn_file.h"
@@ -22,12 +25,47 @@ static void keyToId(long long key, OPN2_BankId &id)
 { id.percussive = (key & 32768) ? 1 : 0; id.msb = (OPN2_UInt8)((key >> 8) & 127); id.lsb = (OPN2_UInt8)(key & 127); }
 static long long idToKey(const OPN2_BankId &id) { return (long long)id.msb * 256 + id.lsb + (id.percussive ? 32768 : 0); }
 
-static int tokOf(const OPN2_Instrument &i) { return (i.operators[1].decay2_70 & 0x1F) | ((i.operators[2].decay2_70 & 0x1F) << 5); }
 static void insOfTok(OPN2_Instrument &o, int tok)
 {
     InsSpec s; s.id = tok; s.kon = 100 + tok; s.koff = 50 + tok; s.noff = (tok % 25) - 12; s.drum = tok % 128; s.veloff = (tok >= 512) ? (tok % 7) - 3 : 0; // the WOPN format does not carry the velocity offset: file-loaded tokens are < 512
     s.fbalg = tok % 64; s.lfosens = tok % 48; for(int k = 0; k < 4; ++k) { s.tl[k] = (tok * (k + 3)) % 128; s.mul[k] = (tok + k) % 16; }
     fillInstrument(o, s);
+}
+
+// the complete field tuple of an instrument (order of spec/BankMap.tla InsFields)
+static void insToVec(const OPN2_Instrument &i, long long *v)
+{
+    v[0] = i.note_offset; v[1] = i.midi_velocity_offset; v[2] = i.percussion_key_number; v[3] = i.inst_flags; v[4] = i.fbalg; v[5] = i.lfosens;
+    for(int op = 0; op < 4; ++op)
+    {
+        const OPN2_Operator &o = i.operators[op]; long long *w = v + 6 + op * 7;
+        w[0] = o.dtfm_30; w[1] = o.level_40; w[2] = o.rsatk_50; w[3] = o.amdecay1_60; w[4] = o.decay2_70; w[5] = o.susrel_80; w[6] = o.ssgeg_90;
+    }
+    v[34] = i.delay_on_ms; v[35] = i.delay_off_ms;
+}
+static bool insFromJsonVec(const JV &a, OPN2_Instrument &i)
+{
+    if(a.a.size() != 36) return false;
+    long long v[36]; for(int k = 0; k < 36; ++k) v[k] = a.a[(size_t)k].num();
+    memset(&i, 0, sizeof i); i.version = 0;
+    i.note_offset = (OPN2_SInt16)v[0]; i.midi_velocity_offset = (OPN2_SInt8)v[1]; i.percussion_key_number = (OPN2_UInt8)v[2];
+    i.inst_flags = (OPN2_UInt8)v[3]; i.fbalg = (OPN2_UInt8)v[4]; i.lfosens = (OPN2_UInt8)v[5];
+    for(int op = 0; op < 4; ++op)
+    {
+        OPN2_Operator &o = i.operators[op]; const long long *w = v + 6 + op * 7;
+        o.dtfm_30 = (OPN2_UInt8)w[0]; o.level_40 = (OPN2_UInt8)w[1]; o.rsatk_50 = (OPN2_UInt8)w[2]; o.amdecay1_60 = (OPN2_UInt8)w[3];
+        o.decay2_70 = (OPN2_UInt8)w[4]; o.susrel_80 = (OPN2_UInt8)w[5]; o.ssgeg_90 = (OPN2_UInt8)w[6];
+    }
+    i.delay_on_ms = (OPN2_UInt16)v[34]; i.delay_off_ms = (OPN2_UInt16)v[35];
+    // the script must name representable values: the recorded input is what the model takes as "written"
+    long long back[36]; insToVec(i, back);
+    for(int k = 0; k < 36; ++k) if(back[k] != v[k]) return false;
+    return true;
+}
+static void vecJson(JW &w, const OPN2_Instrument &i)
+{
+    long long v[36]; insToVec(i, v);
+    w.begin_arr(); for(int k = 0; k < 36; ++k) w.num(v[k]); w.end_arr();
 }
 
 int main(int argc, char **argv)
@@ -45,6 +83,7 @@ int main(int argc, char **argv)
         JV c; if(!jparse(lines[li], c)) return 2;
         std::string o = c.gets("o");
         long long r = 0, na = 0;
+        bool echoIns = false; OPN2_Instrument written; memset(&written, 0, sizeof written);
         alarm(20);
         if(o == "init")
         {
@@ -78,7 +117,11 @@ int main(int argc, char **argv)
         {
             OPN2_BankId id; keyToId(c.get("key"), id); OPN2_Bank b;
             r = opn2_getBank(dev, &id, 0, &b);
-            if(r == 0) { OPN2_Instrument ins; insOfTok(ins, (int)c.get("tok")); r = opn2_setInstrument(dev, &b, (unsigned)c.get("idx"), &ins); }
+            // the instrument: the complete field tuple "ins"; older scripts name a token (then the tuple written is added to the record)
+            OPN2_Instrument ins;
+            if(c.has("ins")) { if(!insFromJsonVec(c["ins"], ins)) return 2; }
+            else { insOfTok(ins, (int)c.get("tok")); echoIns = true; written = ins; }
+            if(r == 0) r = opn2_setInstrument(dev, &b, (unsigned)c.get("idx"), &ins);
         }
         else if(o == "getins")
         {
@@ -100,10 +143,10 @@ int main(int argc, char **argv)
                 WOPNBank &bk = (key & 32768) ? f->banks_percussive[ip++] : f->banks_melodic[im++];
                 bk.bank_midi_msb = (uint8_t)((key >> 8) & 127); bk.bank_midi_lsb = (uint8_t)(key & 127);
                 for(int i = 0; i < 128; ++i) { memset(&bk.ins[i], 0, sizeof(WOPNInstrument)); bk.ins[i].inst_flags = WOPN_Ins_IsBlank; }
-                int tok = (int)ks.a[k].get("tok");
-                if(tok)
+                if(!ks.a[k].has("ins") && ks.a[k].has("tok") && ks.a[k].get("tok") != 0) return 2; // token form no longer supported in bank files
+                if(ks.a[k].has("ins"))
                 {
-                    OPN2_Instrument oi; insOfTok(oi, tok);
+                    OPN2_Instrument oi; if(!insFromJsonVec(ks.a[k]["ins"], oi)) return 2;
                     WOPNInstrument &wi = bk.ins[0];
                     wi.note_offset = oi.note_offset; wi.midi_velocity_offset = oi.midi_velocity_offset;
                     wi.percussion_key_number = oi.percussion_key_number; wi.inst_flags = oi.inst_flags;
@@ -125,6 +168,7 @@ int main(int argc, char **argv)
         alarm(20); // the observation below walks the same structures: keep the watchdog armed
         // observation
         JW w; w.s = lines[li]; w.s.pop_back(); w.first = false;
+        if(echoIns) { w.key("ins"); vecJson(w, written); }
         w.kv("r", r); w.kv("na", na); w.kv("cap", opn2_reserveBanks(dev, 0));
         w.key("it"); w.begin_arr();
         {
@@ -154,18 +198,7 @@ int main(int argc, char **argv)
             {
                 OPN2_Instrument ins; memset(&ins, 0xEE, sizeof ins);
                 if(opn2_getInstrument(dev, &found[k].second, idxs[q], &ins) != 0) continue;
-                int blank = (ins.inst_flags & 2) ? 1 : 0;
-                int tok = blank ? 0 : tokOf(ins);
-                int eq = 1;
-                if(!blank)
-                {
-                    OPN2_Instrument ref; insOfTok(ref, tok); ref.version = ins.version;
-                    eq = (ins.note_offset == ref.note_offset && ins.midi_velocity_offset == ref.midi_velocity_offset &&
-                          ins.percussion_key_number == ref.percussion_key_number && ins.inst_flags == ref.inst_flags &&
-                          ins.fbalg == ref.fbalg && ins.lfosens == ref.lfosens && !memcmp(ins.operators, ref.operators, sizeof ins.operators) &&
-                          ins.delay_on_ms == ref.delay_on_ms && ins.delay_off_ms == ref.delay_off_ms) ? 1 : 0;
-                }
-                w.begin_arr(); w.num(found[k].first); w.num(idxs[q]); w.num(tok); w.num(eq); w.num(blank); w.end_arr();
+                w.begin_arr(); w.num(found[k].first); w.num(idxs[q]); vecJson(w, ins); w.num(ins.version); w.end_arr();
             }
         }
         w.end_arr();
